@@ -226,18 +226,28 @@ func checkPRNG(c prngCase, r *h.Rec) error {
 	// model first
 	mp, mok := newRefPRNG(m, c.GM, c.Strength, pers, c.Seed, c.FailAt)
 	type res struct {
-		out   []byte
-		ok    bool
-		calls int
+		out     []byte
+		ok      bool
+		calls   int
+		faulted bool // the scripted fault has happened by the end of this Read
 	}
 	var want []res
 	if mok {
 		for _, n := range c.Reads {
 			out, ok := mp.read(n)
-			want = append(want, res{out, ok, len(mp.calls)})
+			want = append(want, res{out, ok, len(mp.calls), mp.faultHit})
 		}
 	}
 	reseeds := len(mp.calls) - 2
+	failed := false
+	for _, w := range want {
+		if !w.ok {
+			failed = true
+		} else if failed && len(w.out) > 0 {
+			r.Label("read-ok-after-failed-read")
+			break
+		}
+	}
 	if !mok {
 		r.Label("prng-instantiate-rejected")
 	}
@@ -289,6 +299,15 @@ func checkPRNG(c prngCase, r *h.Rec) error {
 		k, err := p.Read(buf)
 		if cerr := can.Check(); cerr != nil {
 			return fmt.Errorf("read %d (%d bytes): %v", i, n, cerr)
+		}
+		if err != nil && !w.faulted {
+			// The wrapper's contract: an error only when the entropy source
+			// fails or is short. Here the source delivered everything it was
+			// asked for.
+			if stalled() {
+				return nil
+			}
+			return fmt.Errorf("read %d (%d bytes): Read failed (%v) although the entropy source delivered every byte it was asked for (calls %v, strength %d, reseed minimum %d); reads %v", i, n, err, src.calls, mp.strength, m.minEntropyReseed(c.GM), c.Reads)
 		}
 		if (err != nil) != !w.ok {
 			if stalled() {
